@@ -2,10 +2,46 @@
 
 package mpx
 
-import "time"
+import (
+	"sync/atomic"
+	"time"
+)
 
 // VerifReconnectTimeout exposes the client's reconnect back-off function to the
 // verification harness (build tag verif only).
 func VerifReconnectTimeout(attempt int) time.Duration {
 	return reconnectTimeout(attempt)
+}
+
+// Schedule points passed to VerifYieldHook.
+const (
+	VerifPointReceivePolled     = 1  // Channel.Receive: queue polled empty, before the wait
+	VerifPointSendLoopPolled    = 2  // send loop: write queue polled empty, before the wait
+	VerifPointTryAcquire        = 3  // receive path: reference count loaded, before the increment
+	VerifPointReceiveLookedUp   = 4  // receive loop: channel found in the map, before it is acquired
+	VerifPointSendLoopClose     = 5  // send loop: close message dequeued, before the channel is deleted and freed
+	VerifPointSendChecked       = 6  // Channel.Send: closed flag checked, before the message is queued
+	VerifPointCloseQueued       = 7  // Channel.SendAndClose: close message queued, before the state is closed
+	VerifPointFreeClosed        = 8  // Channel.Free: user side closed, before the reference is released
+	VerifPointWindowChecked     = 9  // Channel.Send: window found insufficient, before the wait
+	VerifPointReceiveLoopClosed = 10 // receive loop: close message, channel deleted from the map, before it is closed
+)
+
+// VerifYieldHook is called at the schedule points above (build tag verif only),
+// the harness uses it to widen race windows with seeded yields.
+var verifYieldHook atomic.Pointer[func(point int)]
+
+// VerifSetYieldHook installs or removes (nil) the schedule point hook.
+func VerifSetYieldHook(f func(point int)) {
+	if f == nil {
+		verifYieldHook.Store(nil)
+		return
+	}
+	verifYieldHook.Store(&f)
+}
+
+func verifYield(point int) {
+	if f := verifYieldHook.Load(); f != nil {
+		(*f)(point)
+	}
 }
